@@ -48,7 +48,12 @@ def gen(rng, tier, idx):
             if a == "user":
                 t += dt
                 uid += 1
-                evs.append(["OB.", t, tf.u64(uid).hex(), None])
+                mcv = "OB."
+                if mode == "raw" and r.chance(12):
+                    # in-order events of other models whose category/value look like the region markers' (only "OU[" and
+                    # "OU]" delimit a region)
+                    mcv = r.choice(["VU[", "6U[", "DU[", "VU]", "6U]", "KU[", "OU.", "OV["])
+                evs.append([mcv, t, tf.u64(uid).hex(), None])
             elif a == "jumbo":
                 t += dt
                 uid += 1
@@ -165,7 +170,12 @@ def run(case, ctx):
         tf.write_trace(tdir, streams)
         before = [s.obs_bytes() for s in streams]
         args = (["-n", str(n)] if n is not None else []) + [tdir]
-        status, out, err = ctx.run_tool("ovnisort", args)
+        # 30% of the runs: the file system hands ovnisort short pwrite(2) transfers (seeded; aux/shortio.c)
+        hsalt = int(info["ihash"][:8], 16)
+        shortio = hsalt if hsalt % 10 < 3 else None
+        if shortio is not None:
+            info["faults"]["short pwrite transfers while sorting"] = 1
+        status, out, err = ctx.run_tool("ovnisort", args, shortio=shortio)
         etxt = err.decode(errors="replace")
         tail = "\n--- tool stderr (tail) ---\n" + etxt[-1000:]
         if status != 0:
